@@ -51,6 +51,7 @@ func (d *echoDev) Input(c *devsim.Conn, b []byte) {
 }
 
 func TestLateEcho(t *testing.T) {
+	var ref *ncOutcome
 	for _, late := range []int{-1, 0, 3, 30, 200} {
 		s := genNCScript(399589561300, "1.1")
 		model := s.server()
@@ -82,7 +83,13 @@ func TestLateEcho(t *testing.T) {
 				n++
 			}
 		}
-		fmt.Printf("late=%d err=%q results=%d empty=%d failed=%.300q\n", late, o.Err, len(o.Results), n, o.Failed)
+		fmt.Printf("late=%d err=%q results=%d empty=%d\n", late, o.Err, len(o.Results), n)
+		if late < 0 {
+			oc := o
+			ref = &oc
+		} else {
+			fmt.Println(explainNC(Desc{T: "system-ssh"}, ref, &o))
+		}
 	}
 }
 
